@@ -62,6 +62,33 @@ CLAIMED["C10"] = {
     "the assumed Pool.map contract.",
 }
 
+CLAIMED["C04"] = {
+    "text": "Proof that every OrderedSamples operation (sort_samples, "
+    "add_initial_samples, add_samples in strict and soft mode, "
+    "add_to_nested_samples, remove_samples in both modes, finalise, "
+    "update_log_likelihood_threshold) and get_inverse_indices preserve the "
+    "representation invariant (store sorted by logL; live / nested index "
+    "arrays strictly increasing, in range, disjoint, lengths summing to the "
+    "store size; density table aligned) from ANY state satisfying it, with "
+    "whole-view postconditions over position maps: every old (record, row) "
+    "pair is still present unmodified, every new pair is present with its "
+    "row, membership of every old sample is preserved; remove_samples "
+    "returns exactly the number of live samples strictly below the "
+    "threshold. Operation sequences of any depth follow by induction on "
+    "the invariant. The np.in1d defect was found by the resolver "
+    "obligation and fixed.",
+    "note": "Assumed: numpy library contracts for searchsorted / insert "
+    "(position maps) / argsort / isin / boolean-mask select (incl. the "
+    "counting fact for arange(n)[~isin(arange(n), b)]) / delete / arange; "
+    "lemma unique_complement_enum (strictly increasing enumeration of a "
+    "finite set is unique) and the pigeonhole step from 'disjoint + lengths "
+    "sum to n' to 'every index exactly once' are mathematical lemmas "
+    "(Lean proof in lemmas/, see evidence for its status); batches are "
+    "non-empty (np.max of an empty index array raises) and the threshold "
+    "is the likelihood of a live sample (C17) - reported preconditions; "
+    "likelihoods are reals (NaN excluded).",
+}
+
 NA = {
     "C06": "statistical calibration over seeds: no pre/post-condition on a "
     "function expresses a distributional claim and no deductive back end "
